@@ -47,11 +47,11 @@ var propSpecs = []propSpec{
 	{
 		id: "C03",
 		runs: []runSpec{
-			{dir: "mux", entry: "ZZC03", quick: []int{14, 24, 114, 124, 214, 224, 314, 324, 414, 424, 514, 524, 614, 624, 714, 724, 814, 824, 914, 924}, thorough: []int{15, 25, 35, 115, 125, 135, 215, 225, 235, 315, 325, 335, 415, 425, 435, 515, 525, 535, 615, 625, 635, 715, 725, 735, 815, 825, 835, 915, 925, 935}},
+			{dir: "mux", entry: "ZZC03", quick: []int{14, 24, 114, 124, 214, 224, 314, 324, 414, 424, 514, 524, 614, 624, 714, 724, 814, 824, 914, 924}, thorough: []int{15, 25, 115, 125, 215, 225, 234, 315, 325, 415, 425, 434, 515, 525, 534, 615, 625, 715, 725, 815, 825, 915, 925, 934}},
 		},
 		covers:  []string{"history", "non-interference-checked"},
 		bounds:  "10 scenarios (a route that lost its handlers, stayed as an inner node, is pruned with its last descendant and comes back; a cleaned prefix that is itself a route; one removal pruning two levels below an indexed parent; a non-ASCII literal among siblings crossing the index threshold; a live route that is a proper prefix of a cleaned prefix; an indexed parent with a handler-less branch that is pruned over two removals; six literal siblings + parameter sibling; five top-level routes not starting with '/'; parameters with several methods; interceptor/regexp/named at one position), every history of <= 2 operations from a 6-10 operation alphabet (Handle, Remove(pattern), Remove(pattern, methods), Clean, Prefix.Clean, Resource.Clean) after the scenario's setup; after the last step: Routes() vs model, witness requests of every pattern x 5 methods, and the same symbolic request (path <= 4 bytes, 5 methods) before and after the step",
-		boundsT: "as quick with histories of <= 3 operations and symbolic paths <= 5 bytes",
+		boundsT: "as quick with symbolic paths <= 5 bytes; histories of 3 operations (paths <= 4 bytes) on four of the scenarios",
 		outside: "longer histories, other pattern pools, paths longer than the bound",
 		assume:  []string{"the non-interference clause is asserted for every request that was dispatched to a route the step does not name"},
 		stubs:   stdStubs,
@@ -103,11 +103,11 @@ var propSpecs = []propSpec{
 	{
 		id: "C17",
 		runs: []runSpec{
-			{dir: "mux", entry: "ZZC17", quick: []int{2002, 12002, 22002, 32002, 42002, 112001, 122001, 222001, 312001, 422001, 442001, 3000, 13000}, thorough: []int{3003, 13003, 23003, 33003, 43003, 112002, 122002, 222002, 312002, 422002, 442002, 102002, 202002, 4000, 14000}},
+			{dir: "mux", entry: "ZZC17", quick: []int{2002, 12002, 22002, 32002, 42002, 112001, 122001, 222001, 312001, 422001, 442001, 3000, 13000}, thorough: []int{2002, 12002, 22002, 32002, 42002, 13002, 23002, 112002, 122002, 222002, 312002, 422002, 442002, 102002, 202002, 3000, 13000, 4000, 14000, 24000}},
 		},
 		covers:  []string{"accepted", "rejected"},
 		bounds:  "5 route tables (one with a split literal node whose inner node is a candidate pattern), optionally after an earlier Handle that was rejected for its method (it may leave handler-less nodes behind); one Handle call with a pattern from a 17-pattern pool (live, name variants, '-' variants, rule variants, new, 6 malformed) and a method list of <= 2 entries from {GET, POST, HEAD, OPTIONS, unknown}, single-entry lists with every method string of <= 3 bytes; compared before/after a rejected call: Routes(), the Allow header of every live pattern (OPTIONS and 405), and the outcome of the same symbolic request (path <= 2 bytes x 4 methods incl. HEAD); accept/reject clauses against an independent shape comparison",
-		boundsT: "method lists of <= 3 entries, probe path <= 3 bytes",
+		boundsT: "as quick plus method lists of <= 3 entries with a 2-byte probe on two tables and lists of <= 4 entries with a fixed probe on three tables",
 		outside: "longer method lists; other pools; effects of a rejected call on strict URL building",
 		stubs:   stdStubs,
 	},
@@ -221,12 +221,12 @@ var propSpecs = []propSpec{
 	{
 		id: "C19",
 		runs: []runSpec{
-			{dir: "mux", entry: "ZZC19", quick: []int{13, 23, 112, 122}, thorough: []int{13, 24, 34, 113, 124}},
+			{dir: "mux", entry: "ZZC19", quick: []int{13, 23, 112, 122}, thorough: []int{13, 24, 113, 124}},
 			{dir: "mux", entry: "ZZC19Verbs", quick: []int{2}, thorough: []int{3}},
 		},
 		covers:  []string{"program", "facade-route-reached", "verbs"},
 		bounds:  "every program of <= 2 facade calls from 14 (incl. a cleaned prefix that is itself a parameter route, a Resource object that outlives its route, a Prefix object created before a Use), on an empty table and on one with five literal siblings next to a parameter route (Prefix with middlewares, empty Prefix, a Prefix ending inside a {..} token, nested Prefix.Prefix + Any, Resource Get/Delete, Prefix.Resource Put, Prefix.Resource.Remove, Prefix.Clean, a nested Prefix.Clean whose prefix reaches into a parameter segment, Resource.Clean, nested Prefix.Remove with a method list) run through the facades on one router and desugared into plain Router calls on a second one; compared: Routes(), the table model, the same symbolic request (path <= 3 bytes x 6 methods: handler, pattern, parameters, middleware chain, status, Allow), Prefix.URL / Resource.URL / nested Prefix.URL vs Router.URL in both modes with a symbolic value; every verb shorthand (Get/Post/Delete/Put/Patch/Any/Handle) of Router, Prefix and Resource against the explicit Handle call on 7 patterns x 8 methods with a symbolic parameter value",
-		boundsT: "programs of <= 3 calls, probe paths <= 4 bytes",
+		boundsT: "programs of <= 2 calls, probe paths <= 4 bytes",
 		outside: "longer programs; other prefixes",
 		stubs:   stdStubs,
 	},
